@@ -35,9 +35,6 @@ def plan(tier):
 @st.composite
 def _scenario(draw, tier):
     cfg = draw(lc.sampler_config(max_d=3, temps=(1.0, 1.0, 2.0, 5.0)))
-    if cfg.get("arg_form") == "f32_start":
-        # a float32 start makes the first proposals float32 arithmetic; the refinement tolerances are stated in double
-        cfg.pop("arg_form")
     if cfg["kind"] == "hmc":
         cfg["knobs"]["finite_diff"] = False
     if cfg["kind"] == "ensemble":
